@@ -360,7 +360,7 @@ def run(ctx):
             [{"case": "transport", "k": k, "rounds": 200 if quick else 5000, "seed": ctx.seed}])
     # the reaper as the goroutine of its own that it is: passes at an arbitrary rate next to first uses of fresh names
     _stress(ctx, "reaper passes next to first uses of fresh TLS names on one transport cache",
-            [{"case": "transportreap", "k": k, "rounds": 300 if quick else 5000, "seed": ctx.seed}])
+            [{"case": "transportreap", "k": k, "rounds": 300 if quick else 1200, "seed": ctx.seed}])
     # first use of a TLS name by several callers at once: the model's sequential reference (CallersShareTheCachedTransport)
     # on the real cache.  getTransport is one critical section, so no gate can force miss/miss/create/create: sampled.
     _stress(ctx, "concurrent first getTransport of fresh TLS names (all callers must share the cached transport)",
